@@ -303,6 +303,9 @@ func (r *yieldRewriter) rewriteStmt(
 		// ↓↓ trival branch ↓↓
 		// all other stmt are trival,
 		// no rewriting, no combine
+		// e.g., go Yield(1), or range over pointer to array / type parameter left by pass1,
+		// the yield calling would be dropped silently
+		r.assert(r.mustNoYield(stmt), stmt, "yield not supported in %T", stmt)
 		children.push(stmt, kindTrival)
 		return children
 	}
@@ -374,6 +377,9 @@ func (r *yieldRewriter) rewriteIfStmt(
 		}
 		return block
 	}
+
+	// init stmt is kept as it is, the yield calling would be dropped silently
+	r.assert(r.mustNoYield(stmt.Init), stmt, "yield not supported in if init")
 
 	switch alt := stmt.Else.(type) {
 	case nil:
